@@ -83,6 +83,22 @@ def inner_programs(tier):
     yield {"calls": a2["calls"] + [["union", b2]]}
     yield {"calls": a["calls"] + [["union", b], ["orderby", [A(ux, "zz")], "desc"]]}
     yield {"calls": a["calls"] + [["intersect", b2], ["orderby", [ux], "asc"], ["offset", 1], ["limit", 2]]}
+    yield {"calls": a["calls"] + [["union_all", b], ["intersect", a2]]}
+    yield from _with_inner_programs()
+
+
+def _with_inner_programs():
+    """inner queries that carry their own WITH clause (plain and aliased CTE bodies, values and aliased terms inside the body)"""
+    body = {"calls": [["from", V], ["select", [A(["f", "v", "x"], "x"), ["f", "v", "id"]]], ["where", ["cmp", ">", A(["f", "v", "x"], "bx"), raw(3)]]]}
+    body_al = {"calls": body["calls"] + [["as", "cb"]]}
+    body_set = {"calls": [["from", V], ["select", [["f", "v", "x"]]], ["union_all", {"calls": [["from", U], ["select", [ux]]]}]]}
+    for b in (body, body_al, body_set):
+        yield {"calls": [["with", "ic", b], ["from", ["cte", "ic"]], ["select", [["f", "ic", "x"]]]]}
+        yield {"calls": [["with", "ic", b], ["from", ["cte", "ic"]], ["select", [A(["f", "ic", "x"], "k")]], ["where", ["cmp", "=", A(["f", "ic", "x"], "wx"), raw(1)]],
+                         ["orderby", [A(["f", "ic", "x"], "k")], "asc"], ["limit", 2]]}
+        yield {"calls": [["with", "ic", b], ["from", U], ["join", "inner", ["cte", "ic"], ["on", ["cmp", "=", uid, ["f", "ic", "x"]]]], ["select", [ux]]]}
+        yield {"calls": [["with", "ic", b], ["with", "ic2", body], ["from", ["cte", "ic"]], ["select", [["f", "ic", "x"]]],
+                         ["where", ["insub", ["f", "ic", "x"], {"calls": [["from", ["cte", "ic2"]], ["select", [["f", "ic2", "x"]]]]}]]]}
 
 
 # ---- embedding positions: fn(Q, I) -> (outer object, wrap, alias) ----------------------------------------------
@@ -199,6 +215,17 @@ def p_setop_base(Q, I):
     return I.union(Q.from_(t).select(t.a)), "setop", None
 
 
+def p_setop_chain_right(Q, I):
+    # the second call of a chain: the new operand (possibly itself a set operation) stays one operand
+    t, w = _t(), Table("w")
+    return Q.from_(t).select(t.a).union_all(Q.from_(w).select(w.a)).union(I), "setop", None
+
+
+def p_setop_chain_mid(Q, I):
+    t, w = _t(), Table("w")
+    return Q.from_(t).select(t.a).intersect(I).union_all(Q.from_(w).select(w.a)), "setop", None
+
+
 def p_as_select(Q, I):
     return Query.create_table("n").as_select(I), "paren", None
 
@@ -245,7 +272,7 @@ def p_nested_from(Q, I):
 
 
 POS = {f.__name__[2:]: f for f in (p_from, p_from_auto, p_join, p_in, p_in_aliased, p_cmp_aliased, p_func_arg_aliased, p_select_in_aliased, p_join_on_value, p_not_in_aliased, p_and_or_in_aliased, p_select_case_in_aliased, p_notin, p_not_in, p_and_in, p_cmp, p_select_item,
-                                   p_select_item_aliased, p_cte, p_setop_right, p_setop_base, p_as_select, p_update_from,
+                                   p_select_item_aliased, p_cte, p_setop_right, p_setop_base, p_setop_chain_right, p_setop_chain_mid, p_as_select, p_update_from,
                                    p_delete_in, p_insert_value, p_func_arg, p_case_then, p_having, p_join_on, p_nested_from)}
 
 
@@ -295,8 +322,8 @@ def run_case(case):
         pass
     from pypika_tortoise.queries import _SetOperation
 
-    if pos.startswith("setop") and isinstance(I, _SetOperation):
-        return res  # a set operation as operand of another one: chain semantics, not an embedding (see C14)
+    if pos == "setop_base" and isinstance(I, _SetOperation):
+        return res  # a set operation continued by another call: chain semantics, not an embedding (see C14)
     try:
         outer, wrap, alias = POS[pos](Q, I)
     except Exception as e:
